@@ -86,6 +86,74 @@ func TestC15(t *testing.T) {
 	})
 }
 
+// TestC15Recreate: "exactly one ObjectSetPhase ... exists from rollout until the ObjectSet's teardown": when a third party
+// deletes the phase object, PKO restores it, and afterwards everything - in particular the adoption decisions of a
+// successor revision, which identify objects of a delegated phase through the phase object - must be as if nothing had
+// happened. Metamorphic relation: the same delegated scenario with and without the deletion, compared at every quiescence.
+// (Deleting the phase object is not a neutral step for the in-process run, which is why this is not part of TestC15.)
+func TestC15Recreate(t *testing.T) {
+	st := NewStats("C15", "recreate", "scenario = revision chain of 2-3 hand-made ObjectSets sharing objects, most phases delegated; after a revision has rolled out a third party deletes one of its ObjectSetPhase objects; later a successor revision (previous = all earlier) is created and rolled out, older revisions are archived; the same scenario without the deletion is the reference; quiescing after every step, the logical state (objects, owners mapped to revisions, revision annotation, ObjectSet conditions) must be equal, and the lifetime monitor watches the ObjectSetPhase objects; non-trivial = a phase object was deleted and a successor revision was created afterwards")
+	run := func(c *diffCase) (map[string]bool, error) {
+		return RunDifferentialQuiesced("C15", "recreated-phase", c.A, c.B, []Monitor{&C15LifetimeMonitor{}, &C03Monitor{}, &C04Monitor{}})
+	}
+	CheckOrReplay(t, st, func(data []byte) (any, error) {
+		var c diffCase
+		if err := json.Unmarshal(data, &c); err != nil {
+			return nil, err
+		}
+		_, err := run(&c)
+		return &c, err
+	}, func(rt *rapid.T) {
+		opts := SetGenOpts{AllowClass: false, CPs: []string{"", "", "Prevent", "IfNoController"}, PoolSize: 3, MaxObjs: 2, MaxPhases: 2, ChainBias: true}
+		b := &Scenario{Prop: "C15", Note: "recreate"}
+		nsets := rapid.IntRange(2, 3).Draw(rt, "nsets")
+		ready := func() {
+			for w := 0; w < 3; w++ {
+				b.Steps = append(b.Steps, Step{Op: "widget", I: w, J: 1})
+			}
+		}
+		deleted, successorAfter := false, false
+		for i := 0; i < nsets; i++ {
+			set := GenSet(rt, opts)
+			for pi := range set.Phases {
+				if rapid.IntRange(0, 3).Draw(rt, "delegate") > 0 {
+					set.Phases[pi].Class = engine.ClassDefault
+				}
+			}
+			for j := 0; j < i; j++ {
+				set.Previous = append(set.Previous, j)
+			}
+			b.Steps = append(b.Steps, Step{Op: "createSet", Set: &set})
+			if deleted {
+				successorAfter = true
+			}
+			ready()
+			for k := rapid.IntRange(0, 2).Draw(rt, "ndel"); k > 0 && i < nsets-1; k-- {
+				b.Steps = append(b.Steps, Step{Op: "tpDeletePhase", I: rapid.IntRange(0, 3).Draw(rt, "phase")})
+				deleted = true
+				ready()
+			}
+			if i > 0 && rapid.Bool().Draw(rt, "archiveold") {
+				b.Steps = append(b.Steps, Step{Op: "archiveSet", I: i - 1})
+			}
+		}
+		a := cloneScenario(b)
+		for i := range a.Steps {
+			if a.Steps[i].Op == "tpDeletePhase" {
+				a.Steps[i] = Step{Op: "quiesce"}
+			}
+		}
+		c := &diffCase{Part: "recreate", A: a, B: b}
+		labels, err := run(c)
+		var ll []string
+		for l := range labels {
+			ll = append(ll, l)
+		}
+		st.Case(c, labels["phase-object-deleted-by-third-party"] && successorAfter && deleted, ll...)
+		st.Report(rt, c, err)
+	})
+}
+
 // TestC15Stale: an ObjectSet must trust a delegated phase's Available status only for the phase object's
 // current generation. Generation bumps without the phase controller having run come from pause/unpause of
 // the ObjectSet (propagated as a spec patch) and from direct edits of the phase's paused flag.
